@@ -191,7 +191,9 @@ func (a *WALBatchApplier) ApplyEntries(entries []*replication_proto.WALEntry, ap
 	var lastAppliedSeq uint64
 	for i, protoEntry := range entries {
 		// Verify entries are in sequence
-		if i > 0 && protoEntry.SequenceNumber != entries[i-1].SequenceNumber+1 {
+		// (the entries of one batch or transaction share a sequence number)
+		if i > 0 && protoEntry.SequenceNumber != entries[i-1].SequenceNumber+1 &&
+			protoEntry.SequenceNumber != entries[i-1].SequenceNumber {
 			// Gap within the batch
 			hasGap = true
 			return a.maxAppliedSeq, hasGap, fmt.Errorf("sequence gap within batch: %d -> %d",
